@@ -191,7 +191,7 @@ pub fn parse(text: &str) -> Result<Problem, String> {
 const BUILTIN_INT_FUN: &[(&str, usize)] = &[("$sum", 2), ("$difference", 2), ("$product", 2), ("$uminus", 1)];
 const BUILTIN_INT_PRED: &[&str] = &["$less", "$lesseq", "$greater", "$greatereq"];
 
-pub struct Sig { pub decls: BTreeMap<String, Decl> }
+pub struct Sig { pub decls: BTreeMap<String, Decl>, pub placeholders: BTreeSet<String> }
 
 impl Problem {
     /// every complaint about the problem as a TFF file; empty = well-formed, well-typed, self-contained, one conjecture
@@ -208,7 +208,8 @@ impl Problem {
         }
         let n_conj = self.entries.iter().filter(|e| e.role == "conjecture").count();
         if n_conj != 1 { errs.push(format!("{n_conj} conjectures")); }
-        let sig = Sig { decls };
+        let placeholders: BTreeSet<String> = self.entries.iter().filter(|e| e.name.starts_with("type_function_constant")).filter_map(|e| e.decl.as_ref().map(|d| d.0.clone())).collect();
+        let sig = Sig { decls, placeholders };
         for e in &self.entries {
             if let Some(f) = &e.formula {
                 if !["axiom", "conjecture"].contains(&e.role.as_str()) { errs.push(format!("`{}` has role {}", e.name, e.role)); }
@@ -304,6 +305,7 @@ impl Sig {
             Ty::Int => Ok(fol::GeneralTerm::IntegerTerm(self.int_term(t, scope)?)),
             Ty::Symbol => match t {
                 Term::Var(v) => Ok(fol::GeneralTerm::SymbolicTerm(fol::SymbolicTerm::Variable(v.clone()))),
+                Term::App(c, a) if a.is_empty() && self.placeholders.contains(c) => Ok(fol::GeneralTerm::SymbolicTerm(fol::SymbolicTerm::FunctionConstant(c.clone()))),
                 // a symbolic constant denotes itself
                 Term::App(c, a) if a.is_empty() => Ok(fol::GeneralTerm::SymbolicTerm(fol::SymbolicTerm::Symbol(c.clone()))),
                 _ => Err("unreadable symbol term".into()),
